@@ -1,6 +1,14 @@
 #!/bin/sh
 # Runs the thorough tier of every property once (development aid; ~1.5-2 h on 16 cores).
 cd "$(dirname "$0")/.." || exit 2
+if [ -n "$VP_RUN_REPO" ] && [ "$(pwd)" != "/verif" ]; then
+  # running from a snapshot (vp run --with-repo): use the snapshot of /repo as well, so that the
+  # live /repo can be edited meanwhile
+  export GOFLAGS=-mod=mod GOPROXY=off GOSUMDB=off GOTOOLCHAIN=local
+  (cd harness && go mod edit -replace github.com/google/jsonschema-go="$VP_RUN_REPO")
+  export VERIF_REPO_OVERRIDE="$VP_RUN_REPO"
+  echo "using repo snapshot $VP_RUN_REPO"
+fi
 for id in C11 C12 C19 C08 C15 C18 C04 C09 C01 C02 C07 C16 C03 C06 C14 C17 C20 C05 C10 C13; do
   start=$(date +%s)
   out=$(VERIF_SEED=${VERIF_SEED:-1} bin/check $id thorough 2>&1); rc=$?
